@@ -469,14 +469,17 @@ Proof. vm_compute. repeat split. Qed.
 
 (* ---- round 7: the pool run through the engine (Model/ShootEngine.v) ---- *)
 
-(* For every ammo list, every startup schedule length and EVERY trace of a pool run with engine.go's await loop
-   (any number of instances started at any moments, any interleaving of acquiring, shooting, reporting, writing,
-   schedules ending, the provider running dry, the await loop receiving results): what is written or queued is
-   always exactly the samples of the shots that have ended, every fired shot has ended or is in flight, and the
-   aggregator returns only when nothing is in flight, every instance has been awaited and no instance will be
-   started - so the results then hold exactly one sample per fired request, each the one the property asks for. *)
-Theorem C10_engine_one_sample_per_fired_request : forall ammo tostart evs st,
-  erun false (einit ammo tostart) evs = Some st ->
+(* For every list [ooa] of cancel functions called in the "out of ammo" branch of awaitRun that does not contain
+   runCancel (engine.go: [instanceStartCancel], Gen/AwaitRun_bridge.v), every ammo list, every startup schedule length
+   and EVERY trace of a pool run (any number of instances started at any moments, any interleaving of acquiring,
+   shooting, reporting, writing, schedules ending, the provider running dry, the await loop receiving results):
+   what is written or queued is always exactly the samples of the shots that have ended, every fired shot has ended or
+   is in flight, and the aggregator returns only when nothing is in flight, every instance has been awaited and no
+   instance will be started - so the results then hold exactly one sample per fired request, each the one the property
+   asks for. *)
+Theorem C10_engine_one_sample_per_fired_request : forall ooa ammo tostart evs st,
+  no_run_cancel ooa = true ->
+  erun ooa (einit ammo tostart) evs = Some st ->
   a_lines (e_a st) ++ a_sink (e_a st) = flat_map shot_spec (w_reported (e_w st)) /\
   Permutation (w_fired (e_w st)) (w_reported (e_w st) ++ inflight (w_insts (e_w st))) /\
   (a_running (e_a st) = false ->
@@ -489,9 +492,8 @@ Proof. exact engine_one_sample_per_fired_request. Qed.
 Print Assumptions C10_engine_one_sample_per_fired_request.
 
 (* once the aggregator has returned it stays so: the results above are final *)
-Theorem C10_engine_results_final : forall ammo tostart evs st evs2 st2,
-  erun false (einit ammo tostart) evs = Some st -> a_running (e_a st) = false ->
-  erun false st evs2 = Some st2 -> a_running (e_a st2) = false.
+Theorem C10_engine_results_final : forall ooa st evs2 st2,
+  a_running (e_a st) = false -> erun ooa st evs2 = Some st2 -> a_running (e_a st2) = false.
 Proof. exact engine_results_final. Qed.
 Print Assumptions C10_engine_results_final.
 
@@ -499,18 +501,18 @@ Print Assumptions C10_engine_results_final.
    comes back "out of ammo" while instances are still being started: one ammo, two instances, a slow target -
    the request is fired and its sample reported, the pool ends with everything awaited, the results are empty *)
 Theorem C10_engine_cancel_run_at_out_of_ammo_refuted :
-  exists st, erun true (einit [lost_witness_shot] 5) lost_witness_trace = Some st /\
+  exists st, erun [CcRun] (einit [lost_witness_shot] 5) lost_witness_trace = Some st /\
              eover st = true /\ Forall (fun s => s = IAwaited) (w_insts (e_w st)) /\
              fired_requests st = 1%nat /\ a_lines (e_a st) = [] /\
-             erun false (einit [lost_witness_shot] 5) lost_witness_trace = None.
+             erun engine_ooa (einit [lost_witness_shot] 5) lost_witness_trace = None.
 Proof. exact engine_cancel_run_loses_requests. Qed.
 Print Assumptions C10_engine_cancel_run_at_out_of_ammo_refuted.
 
 (* non-vacuity: the slow-target trace of the harness (4 instances, 3 ammo) is a complete run with all three lines *)
 Example C10_engine_example :
   let shots := [lost_witness_shot; ShGrpc [103] (GCalled 14); lost_witness_shot] in
-  slow_run_lines false shots = flat_map shot_spec shots /\ slow_run_over false shots = true /\
-  slow_run_lines true shots = [] /\ slow_run_over true shots = true.
+  slow_run_lines engine_ooa shots = flat_map shot_spec shots /\ slow_run_over engine_ooa shots = true /\
+  slow_run_lines [CcRun] shots = [] /\ slow_run_over [CcRun] shots = true.
 Proof. exact engine_example_slow. Qed.
 
 (* non-vacuity *)
